@@ -500,6 +500,7 @@ type Contract struct {
 	StrMode   string
 	ByteBV    bool
 	LogCalls  bool
+	LogLib    bool // `log-lib`: modelled library calls (io.ReadAll) made by this function appear in its call log
 	Params    []string // optional parameter renames for trusted externals
 	Atomic    bool
 	Holds     []string // requires held(L)
@@ -578,7 +579,7 @@ func NewContractSet() *ContractSet {
 var clauseKeywords = map[string]bool{
 	"func": true, "requires": true, "ensures": true, "loop": true, "modifies": true, "trusted": true,
 	"pure": true, "inline": true, "noinline": true, "strings": true, "bytes": true, "panics": true, "bind": true, "sink": true,
-	"axiom": true, "log": true, "atomic": true, "guarded_by": true, "immutable": true, "must-close": true,
+	"axiom": true, "log": true, "log-lib": true, "atomic": true, "guarded_by": true, "immutable": true, "must-close": true,
 	"opaque": true, "unroll": true, "yield-requires": true, "invariant": true, "seq-items": true, "private": true, "pure-param": true, "public-invariant": true, "iface-ensures": true, "iface-pure": true, "lemma": true, "holds": true, "guarded-param": true, "invokes": true, "fn-sink": true, "nocall": true, "append-frames": true, "fn-type-pure": true, "producer": true, "closure": true, "package": true, "assume-return": true,
 }
 
@@ -797,6 +798,10 @@ func (cs *ContractSet) LoadContractFile(path, pkgPath string) error {
 			cur.NoInline = true
 		case "log":
 			cur.LogCalls = true
+		case "log-lib":
+			if cur != nil {
+				cur.LogLib = true
+			}
 		case "atomic":
 			if cur != nil {
 				cur.Atomic = true
